@@ -21,7 +21,7 @@ RULE = ('seeded coherent models over the MATLAB execute-universe (bool,char,int,
         'object by value / shared, enum, pair); one case = one toolbox, every callable x arity of it is compared; '
         'non-trivial = toolbox with >=1 defaulted parameter and >=1 object parameter; distinct = sha256 of the text')
 ASSUMPTIONS = ['marshalling table of vlib/ref_matlab.py (DESIGN.md 4/C06) states what the documented type universe requires',
-               'flagged constructs (D9-D13, D22, D28, D30-D33, D41 unsigned char guards) are not generated while open']
+               'flagged constructs (D9, D12, D13, D28, D30-D33, D41 unsigned char guards) are not generated while open']
 MIN_EVENTS = {'quick': {'branches_compared': 6000, 'contract:_expand_default_arguments': 3000},
               'thorough': {'branches_compared': 120000, 'contract:_expand_default_arguments': 60000}}
 CONTRACT = {'evals': 0, 'fails': []}
